@@ -30,6 +30,27 @@ pub enum PopKind {
 pub enum HyperKind {
     Dynamic,
     Static,
+    /// one operator only, so that every generation (and every interruption point) lies inside it
+    Decompose,
+    Infeasible,
+    Redistribute,
+    LkhDiverse,
+}
+
+impl HyperKind {
+    pub fn name(&self) -> &'static str {
+        match self {
+            HyperKind::Dynamic => "Dynamic",
+            HyperKind::Static => "Static",
+            HyperKind::Decompose => "Decompose",
+            HyperKind::Infeasible => "Infeasible",
+            HyperKind::Redistribute => "Redistribute",
+            HyperKind::LkhDiverse => "LkhDiverse",
+        }
+    }
+    pub fn from_name(s: &str) -> HyperKind {
+        [HyperKind::Static, HyperKind::Decompose, HyperKind::Infeasible, HyperKind::Redistribute, HyperKind::LkhDiverse].into_iter().find(|k| k.name() == s).unwrap_or(HyperKind::Dynamic)
+    }
 }
 
 #[derive(Clone, Debug)]
@@ -63,7 +84,7 @@ impl Default for SolveCfg {
 impl SolveCfg {
     pub fn to_json(&self) -> Value {
         serde_json::json!({
-            "population": format!("{:?}", self.population), "hyper": format!("{:?}", self.hyper), "generations": self.generations,
+            "population": format!("{:?}", self.population), "hyper": self.hyper.name(), "generations": self.generations,
             "seed": self.seed, "plan": self.plan.map(|p| p.name()), "parallelism": self.parallelism, "cpus": self.cpus, "init_size": self.init_size,
         })
     }
@@ -76,7 +97,7 @@ impl SolveCfg {
                 "RosomaxaSmall" => PopKind::RosomaxaSmall,
                 _ => PopKind::Default,
             },
-            hyper: if s("hyper") == "Static" { HyperKind::Static } else { HyperKind::Dynamic },
+            hyper: HyperKind::from_name(&s("hyper")),
             generations: v.get("generations").and_then(|x| x.as_u64()).unwrap_or(3) as usize,
             seed: v.get("seed").and_then(|x| x.as_u64()).unwrap_or(0),
             plan: PlanPolicy::all().into_iter().find(|p| Some(p.name()) == v.get("plan").and_then(|x| x.as_str())),
@@ -129,6 +150,19 @@ pub fn build_config(
     let heuristic: TargetHeuristic = match cfg.hyper {
         HyperKind::Dynamic => Box::new(get_dynamic_heuristic(core.clone(), environment.clone())),
         HyperKind::Static => Box::new(get_static_heuristic(core.clone(), environment.clone())),
+        single => {
+            use vrp_core::solver::search::*;
+            let random = environment.random.clone();
+            let default_op = create_default_heuristic_operator(core.clone(), environment.clone());
+            let cheapest: Arc<dyn Recreate> = Arc::new(RecreateWithCheapest::new(random.clone()));
+            let op: TargetSearchOperator = match single {
+                HyperKind::Decompose => Arc::new(DecomposeSearch::new(default_op, (2, 4), 2, 200)),
+                HyperKind::Infeasible => Arc::new(InfeasibleSearch::new(default_op, cheapest, 2, (0.05, 0.2), (0.33, 0.75))),
+                HyperKind::Redistribute => Arc::new(RedistributeSearch::new(cheapest)),
+                _ => Arc::new(LKHSearch::new(LKHSearchMode::Diverse)),
+            };
+            Box::new(get_static_heuristic_from_heuristic_group(core.clone(), environment.clone(), vec![(op, create_scalar_operator_probability(1., random))]))
+        }
     };
     let heuristic: TargetHeuristic = match GENERATION_COUNTER.with(|c| c.borrow().clone()) {
         Some(counter) => Box::new(CountGenerations { inner: heuristic, counter }),
